@@ -813,6 +813,25 @@ impl<'a, F: FieldApi> Mach<'a, F> {
     }
 }
 
+impl<'a, F: FieldApi> Mach<'a, F> {
+    /// batch inversion of a long slice: element i is register i mod NREG, or zero at the positions zs;
+    /// registers are not modified
+    fn batch_long(&mut self, n: usize, zs: &[usize]) {
+        let regs = self.regs;
+        let zero = match guarded(|| F::cst("ZERO")) { Ok(z) => z, Err(_) => return };
+        let mut xx: Vec<F> = (0..n).map(|i| if zs.contains(&i) { zero } else { regs[i % NREG] }).collect();
+        let zi: Vec<i64> = zs.iter().filter(|&&z| z < n).map(|&z| z as i64).collect();
+        let e = Ev::new("batch_long").n("n", n as i64).nn("zs", &zi);
+        match guarded(move || {
+            F::batch_invert(&mut xx);
+            xx.iter().map(|x| F::encode(*x)).collect::<Vec<Vec<u8>>>()
+        }) {
+            Ok(outs) => self.tr.emit(e.bb("outs", &outs)),
+            Err(m) => self.tr.emit(e.s("panic", &m)),
+        }
+    }
+}
+
 // ------------------------------------------------------------------------
 // script generators
 
@@ -1223,6 +1242,23 @@ fn run_div<F: FieldApi>(tr: &mut Trace, rng: &mut Rng, plan: &Plan) {
             ok = ok && m.raw(r, &b, 0);
         }
         if ok { m.batch_invert(&rs); }
+    }
+    // long slices: the implementations work in batches of 200; zeros in the first / last slot of a batch,
+    // lengths that end a batch exactly, an all-zero batch
+    {
+        let mut m = Mach::<F>::new(tr);
+        let mut ok = true;
+        for r in 0..NREG {
+            let b = if r == 5 { to_le(&q, F::RAW_LEN) } else { random_raw(rng, &q, F::RAW_LEN) };
+            ok = ok && m.raw(r, &b, 0);
+        }
+        if ok {
+            for (n, zs) in [(199usize, vec![0usize]), (200, vec![199]), (200, vec![0, 1]), (201, vec![200]), (201, vec![]),
+                            (260, vec![200]), (260, vec![0, 199, 200, 201, 259]), (400, vec![399]), (401, vec![400]),
+                            (403, vec![400, 401, 402]), (403, (0..200).collect::<Vec<usize>>())] {
+                m.batch_long(n, &zs);
+            }
+        }
     }
 }
 
